@@ -24,7 +24,8 @@ PRIORS = {'none': (), 'success': (['valid'],), 'rejected@.5T': (['exc@.5T'],), '
 
 def letters_of(tr):
     # (TCP) plus conforming answers that carry another transaction id than the request
-    return alphabet(tr) + (['valid-tx0', 'valid-tx+1'] if tr == 'tcp' else [])
+    # ... and the exception codes that invite a client to try again (5 ACKNOWLEDGE, 6 SLAVE DEVICE BUSY)
+    return alphabet(tr) + ['exc5', 'exc6'] + (['valid-tx0', 'valid-tx+1'] if tr == 'tcp' else [])
 
 
 def prior_of(name):
